@@ -656,6 +656,13 @@ func (m *Machine) visitInstr(fr *frame, instr ssa.Instruction) continuation {
 			}
 		case Str:
 			fr.env[instr] = m.strIndex(x, idx, instr.Index.Type())
+		case []Value:
+			a := m.indexAddr(x, idx, instr.Index.Type())
+			if sp, ok := a.(*SymPtr); ok {
+				fr.env[instr] = m.symLoad(sp)
+			} else {
+				fr.env[instr] = load(a.(*Value))
+			}
 		default:
 			m.unsupported("Index on %T", x)
 		}
